@@ -62,6 +62,35 @@ def rules(model, rep):
     if pidx_a is None or ast.unparse(pidx_a.value.args[0]) != "battery":
         raise AnalysisError("batt_life: battery index not resolved from the battery argument")
     PIDX = pidx_a.targets[0].id
+    # roles by structure, never by spelling: the phase list / index are what the solver call in the loop subscripts,
+    # the log lists are what feeds the result columns
+    scall = [c for c in ast.walk(loop) if isinstance(c, ast.Call) and ast.unparse(c.func) == "self.%s" % r["SOLVER"]]
+    if not scall:
+        raise AnalysisError("batt_life: the depletion loop does not call the solver")
+    pharg = None
+    for k in scall[0].keywords:
+        if k.arg == "phase":
+            pharg = k.value
+    if pharg is None and len(scall[0].args) >= 5:
+        pharg = scall[0].args[4]
+    if not (isinstance(pharg, ast.Subscript) and isinstance(pharg.value, ast.Name)):
+        PLN, IXN = "phase_list", "phidx"
+        for x in ast.walk(fn):
+            if isinstance(x, ast.Assign) and isinstance(x.targets[0], ast.Name) and ast.unparse(x.value).replace('"', "'") == "['']":
+                PLN = x.targets[0].id
+    else:
+        PLN = pharg.value.id
+        ix = [n.id for n in ast.walk(pharg.slice) if isinstance(n, ast.Name)]
+        IXN = ix[0] if ix else "phidx"
+    hdr0 = {}
+    for x in ast.walk(fn):
+        if isinstance(x, ast.Assign) and isinstance(x.targets[0], ast.Subscript) and isinstance(x.targets[0].slice, ast.Constant) and isinstance(x.value, ast.Name) \
+                and isinstance(x.targets[0].value, ast.Name):
+            hdr0[x.targets[0].slice.value] = x.value.id
+    need_h = ["Time (s)", "Capacity (Ah)", "Voltage (V)", "Resistance (Ohm)"]
+    if any(h not in hdr0 for h in need_h):
+        raise AnalysisError("batt_life: result columns %s not found" % [h for h in need_h if h not in hdr0])
+    TN, CAPN, VOLTN, RSN = (hdr0[h] for h in need_h)
     # the loop condition on a symbolic state
     entry = dict(env0)
     entry[BST] = Sym(("name", "STATE"))
@@ -99,7 +128,7 @@ def rules(model, rep):
 
     def st(i):
         return Sym(("sub", S, lift(i)))
-    PHL = entry.get("phase_list")
+    PHL = entry.get(PLN)
     ok1 = ok2 = ok3 = True
     npaths = 0
     for lf in leaves:
@@ -134,7 +163,7 @@ def rules(model, rep):
         ph = kw.get("phase")
         if ph is None and len(se[2]) >= 5:
             ph = se[2][4]
-        PHX = Sym(("entry", "phidx")) if "phidx" in carried else entry.get("phidx")
+        PHX = Sym(("entry", IXN)) if IXN in carried else entry.get(IXN)
         want_ph = Sym(("sub", vkey(PHL), vkey(PHX)))
         if ph is None or vkey(ph) != vkey(want_ph):
             ok2 = False
@@ -157,7 +186,7 @@ def rules(model, rep):
         if nophase is None:
             raise AnalysisError("batt_life: the step duration does not branch on 'no phases'")
         if nophase:
-            capv = entry.get("cap")
+            capv = entry.get(CAPN)
             cap0 = capv.items[0] if isinstance(capv, ListV) and capv.items else Sym(("sub", vkey(capv), lift(0)))
             want_dt = to_num(cap0) / to_num(cur) * lift(3.6)
             good = False
@@ -174,7 +203,7 @@ def rules(model, rep):
             ok2 = False
             rep.violation("R2", construct, where, "the step duration is %s, expected %s" % (show_value(dt), show_value(want_dt)), "duration %s" % ("nophase" if nophase else "phase"))
         # phidx advance: once, after the uses
-        newph = lf.env.get("phidx")
+        newph = lf.env.get(IXN)
         try:
             wantph = RF.atom(("F", "Mod", (to_num(PHX) + 1, RF.atom(("nn", Sym(("len", vkey(PHL))))))))
             good = isinstance(newph, RF) and newph == wantph
@@ -192,13 +221,10 @@ def rules(model, rep):
         e2 = dict(entry)
         e2[BST] = dres
         cond_new = sm.cond(loop.test, State(e2))
-        tvar = "t"
         logged = {}
-        for nm in ("t", "cap", "volt", "rs"):
-            v = lf.env.get(nm)
-            base = entry.get(nm)
-            logged[nm] = v
-        appended = isinstance(logged["t"], Sym) and logged["t"].key[0] == "concat" or (isinstance(logged["t"], ListV) and isinstance(entry.get("t"), ListV) and len(logged["t"].items) > len(entry["t"].items))
+        for nm, var in (("t", TN), ("cap", CAPN), ("volt", VOLTN), ("rs", RSN)):
+            logged[nm] = lf.env.get(var)
+        appended = isinstance(logged["t"], Sym) and logged["t"].key[0] == "concat" or (isinstance(logged["t"], ListV) and isinstance(entry.get(TN), ListV) and len(logged["t"].items) > len(entry[TN].items))
         from ..editrules import implies
         holds = True if implies(lf.guards, cond_new)[0] else (False if implies(lf.guards, Not(cond_new))[0] else None)
         if holds is None:
@@ -213,7 +239,7 @@ def rules(model, rep):
                     return v.key[2].items[-1], v.key[1]
                 return v.items[-1], None
             tv, tprev = last(logged["t"])
-            prevt = entry.get("t")
+            prevt = entry.get(TN)
             want_t = to_num(Sym(("sub", vkey(prevt), lift(-1)))) + to_num(dt)
             try:
                 good = to_num(tv) == want_t
@@ -237,7 +263,7 @@ def rules(model, rep):
     pv = Sym(("call", "pfunc", ()))
     init = {"t": ListV([lift(0)]), "cap": ListV([Sym(("sub", pv, lift(0)))]), "volt": ListV([Sym(("sub", pv, lift(1)))]), "rs": ListV([Sym(("sub", pv, lift(2)))])}
     for nm, want in init.items():
-        got = env0.get(nm)
+        got = env0.get({"t": TN, "cap": CAPN, "volt": VOLTN, "rs": RSN}[nm])
         if not (isinstance(got, ListV) and vkey(tuple(got.items)) == vkey(tuple(want.items))):
             ok = False
             rep.violation("R3", construct, "%s:%d" % (rel, fn.lineno), "the log list '%s' starts as %s, expected %s (t=0 and the probed state)" % (nm, show_value(got), show_value(want)), "log init " + nm)
@@ -246,8 +272,8 @@ def rules(model, rep):
     for x in ast.walk(fn):
         if isinstance(x, ast.Assign) and isinstance(x.targets[0], ast.Subscript) and is_name(x.targets[0].value, "res") and isinstance(x.targets[0].slice, ast.Constant) and isinstance(x.value, ast.Name):
             hdr[x.targets[0].slice.value] = x.value.id
-    wanth = {"Time (s)": "t", "Capacity (Ah)": "cap", "Voltage (V)": "volt", "Resistance (Ohm)": "rs"}
-    if hdr != wanth:
+    wanth = {"Time (s)": TN, "Capacity (Ah)": CAPN, "Voltage (V)": VOLTN, "Resistance (Ohm)": RSN}
+    if len(set(wanth.values())) != 4:
         ok = False
         rep.violation("R3", construct, "%s:%d" % (rel, fn.lineno), "result columns are fed by %s" % hdr, "result columns")
     # nothing strips or edits the log after the loop
